@@ -430,14 +430,29 @@ func (s *Sim) getPending(rid string) bool {
 	return true
 }
 
-// accessRefused: an access request for (c, rid) sent after client request r
-// was answered with anything but a get grant.
+// accessRefused: the access request the gateway made for the resource rid of a
+// resource response (i.e. one sent after the call/auth reply naming rid was
+// delivered) was answered with anything but a get grant.
 func (s *Sim) accessRefused(c *Client, rid string, r *CReq) bool {
-	name, _ := splitRID(c.expandCID(rid))
+	full := c.expandCID(rid)
+	name, _ := splitRID(full)
 	s.mu.Lock()
 	defer s.mu.Unlock()
+	var after uint64
+	found := false
+	for _, ev := range s.tr.Log {
+		if ev.Kind == "dlv" && ev.Req != nil && ev.Req.CIdx == c.CIdx && (ev.Req.Type == "call" || ev.Req.Type == "auth") && ev.Req.Seq > r.Seq && ev.Req.Outcome == "rid:"+full {
+			if !found || ev.Seq < after {
+				after = ev.Seq
+			}
+			found = true
+		}
+	}
+	if !found {
+		return false
+	}
 	for _, q := range s.tr.reqs {
-		if q.Type == "access" && q.CIdx == c.CIdx && q.Name == name && q.Seq > r.Seq && q.Answered {
+		if q.Type == "access" && q.CIdx == c.CIdx && q.Name == name && q.Seq > after && q.Answered {
 			if !strings.HasPrefix(q.Outcome, "acc:") || !strings.Contains(q.Outcome, `"get":true`) {
 				return true
 			}
